@@ -156,6 +156,7 @@ class Log:
         self.canaries = 0
         self.new_functions = []
         self.ghost_origin = {}
+        self.body_tokens = {}       # function under contract -> its body as a token list (to measure how much of it an edit rewrote)
         self.callees = {}           # function under contract -> names it calls (identifier followed by `(`) on the repository text
         self.derives = {}           # struct -> derive list on the repository text (a derive that disappears was replaced by hand-written code)
         self.trusted_text = {}      # external_body function -> digest of its repository text (the trust was given to that text)
@@ -239,6 +240,7 @@ def emit_fn(out, src, item, spec, log, where, canary=False, strip=None, loop_sha
     has_body = item.body_open >= 0
     if has_body:
         bt = toks[item.body_open:item.body_close + 1]
+        log.body_tokens[qual.replace(" ", "")] = [t.text for t in bt]
         log.callees[qual.replace(" ", "")] = sorted({bt[k].text for k in range(len(bt) - 1) if bt[k].kind == "ident" and bt[k + 1].text in ("(", "!") and bt[k].text not in ("if", "while", "match", "for", "return", "in", "Some", "Ok", "Err", "Self", "assert", "debug_assert")})
     if spec.dropbody:
         if not has_body:
